@@ -44,7 +44,7 @@ CHECKS = {
                                               {"name": "FuzzC16Decode", "fuzz": True, "quick": None, "thorough": {"checks": 0, "shards": 1, "timeout": 400, "fuzztime": "120s"}}],
             "assumptions": ["cmd/main.go's validation gate is taken on reading; validator and decoder are checked as functions"]},
     "C17": {"level": "exploration", "tests": [direct("TestC17", q=3000, t=400000)], "assumptions": COMMON_ASSUMPTIONS},
-    "C18": {"level": "fault_enumeration", "tests": [direct("TestC18", q=60, t=2500), direct("TestC18Consecutive", q=300, t=30000), hist("TestC18History", q=500, t=15000)], "assumptions": COMMON_ASSUMPTIONS},
+    "C18": {"level": "fault_enumeration", "tests": [direct("TestC18", q=60, t=800), direct("TestC18Consecutive", q=300, t=30000), hist("TestC18History", q=500, t=15000)], "assumptions": COMMON_ASSUMPTIONS},
     "C19": {"level": "fault_enumeration", "tests": [direct("TestC19Direct", q=3000, t=400000), hist("TestC19History")], "assumptions": COMMON_ASSUMPTIONS},
     "C20": {"level": "fault_enumeration", "tests": [hist("TestC20"), hist("TestC20Dry", q=600, t=15000), hist("TestC20Enum", q=100, t=1500, steps=20, tsteps=25)], "assumptions": COMMON_ASSUMPTIONS},
 }
